@@ -96,6 +96,17 @@ func (share *Share) Verify(ec elliptic.Curve, threshold int, vs Vs) bool {
 	if share.Threshold != threshold || vs == nil || len(vs) != threshold+1 {
 		return false
 	}
+	// a share or an id that is 0 mod q, or a commitment that is not a curve point, cannot verify; multiplying by them
+	// would yield the identity (or an off-curve point), which ECPoint cannot represent (ScalarMult panics)
+	if share.Share == nil || share.ID == nil ||
+		new(big.Int).Mod(share.Share, ec.Params().N).Sign() == 0 || new(big.Int).Mod(share.ID, ec.Params().N).Sign() == 0 {
+		return false
+	}
+	for _, vj := range vs {
+		if vj == nil || !vj.SetCurve(ec).ValidateBasic() {
+			return false
+		}
+	}
 	var err error
 	modQ := common.ModInt(ec.Params().N)
 	v, t := vs[0], one // YRO : we need to have our accumulator outside of the loop
